@@ -91,7 +91,8 @@ fn file_target_errors(st: &RState, p: &str) -> Option<Pred> {
     }
     match st.tree.kind(p) {
         "dir" => Some(Pred::MustErr { kind: Some("IsNotFile") }),
-        "link" => Some(Pred::Either { ok_val: Val::Any, ok_post: None, wild: Wild::default() }),
+        // "IsNotFile when the given path exists but is not a file" and is_file() excludes links (both documented)
+        "link" => Some(Pred::MustErr { kind: Some("IsNotFile") }),
         _ => None,
     }
 }
